@@ -340,7 +340,7 @@ func (v *v0ProtocolMarshaler) unmarshalHeadersFromFrame(frame []byte) (map[strin
 			fmt.Errorf("frugal: invalid v0 frame size %d", len(frame)))
 	}
 	size := int32(binary.BigEndian.Uint32(frame))
-	if size > int32(len(frame[4:])) {
+	if size < 0 || size > int32(len(frame[4:])) {
 		return nil, thrift.NewTProtocolExceptionWithType(thrift.INVALID_DATA,
 			fmt.Errorf("frugal: v0 frame size %d does not match actual size %d", size, len(frame[4:])))
 	}
@@ -391,12 +391,20 @@ func (v *v0ProtocolMarshaler) unmarshalFrame(frame []byte, components *frameComp
 
 func (v *v0ProtocolMarshaler) readPairs(buff []byte, start, end int32) (map[string]string, error) {
 	headers := make(map[string]string)
+	if start < 0 || end > int32(len(buff)) {
+		return nil, thrift.NewTProtocolExceptionWithType(thrift.INVALID_DATA,
+			errors.New("frugal: invalid v0 protocol headers size"))
+	}
 	i := start
 	for i < end {
 		// Read header name.
+		if end-i < 4 {
+			return nil, thrift.NewTProtocolExceptionWithType(thrift.INVALID_DATA,
+				errors.New("frugal: invalid v0 protocol header name"))
+		}
 		nameSize := int32(binary.BigEndian.Uint32(buff[i : i+4]))
 		i += 4
-		if i > end || i+nameSize > end {
+		if nameSize < 0 || nameSize > end-i {
 			return nil, thrift.NewTProtocolExceptionWithType(thrift.INVALID_DATA,
 				errors.New("frugal: invalid v0 protocol header name"))
 		}
@@ -404,9 +412,13 @@ func (v *v0ProtocolMarshaler) readPairs(buff []byte, start, end int32) (map[stri
 		i += nameSize
 
 		// Read header value.
+		if end-i < 4 {
+			return nil, thrift.NewTProtocolExceptionWithType(thrift.INVALID_DATA,
+				errors.New("frugal: invalid v0 protocol header value"))
+		}
 		valueSize := int32(binary.BigEndian.Uint32(buff[i : i+4]))
 		i += 4
-		if i > end || i+valueSize > end {
+		if valueSize < 0 || valueSize > end-i {
 			return nil, thrift.NewTProtocolExceptionWithType(thrift.INVALID_DATA,
 				errors.New("frugal: invalid v0 protocol header value"))
 		}
